@@ -1,5 +1,158 @@
 import GnpyModel.Scalar
-/- model file Json (see DESIGN.md §2) -/
+/-
+JSON tree as Python's `json` module presents it to the converters (C18): `None`, `bool`, `int`,
+`float` (kept as its binary64 bit pattern, so nothing is lost and equality is decidable), `str`,
+`list`, and `dict` in *insertion order* (an association list; the generators never repeat a key,
+as `json.load` never does).  Helpers mirror the dict operations the converters use:
+`in`, `[]`, `.get`, `.pop(k, None)` and `d[k] = v` (in place if present, appended otherwise).
+-/
 namespace Gnpy
+
+inductive J where
+  | null
+  | bool (b : Bool)
+  | int (i : Int)
+  | flt (bits : Nat)
+  | str (s : String)
+  | arr (l : List J)
+  | obj (l : List (String × J))
+  deriving Repr, Inhabited
+
+namespace J
+
+mutual
+def beq : J → J → Bool
+  | .null, .null => true
+  | .bool a, .bool b => a == b
+  | .int a, .int b => a == b
+  | .flt a, .flt b => a == b
+  | .str a, .str b => a == b
+  | .arr a, .arr b => beqL a b
+  | .obj a, .obj b => beqO a b
+  | _, _ => false
+def beqL : List J → List J → Bool
+  | [], [] => true
+  | x :: xs, y :: ys => beq x y && beqL xs ys
+  | _, _ => false
+def beqO : List (String × J) → List (String × J) → Bool
+  | [], [] => true
+  | (k, x) :: xs, (k', y) :: ys => k == k' && beq x y && beqO xs ys
+  | _, _ => false
+end
+
+mutual
+theorem eq_of_beq : ∀ a b : J, beq a b = true → a = b
+  | .null, b => by cases b <;> simp [beq]
+  | .bool a, b => by cases b <;> simp [beq]
+  | .int a, b => by cases b <;> simp [beq]
+  | .flt a, b => by cases b <;> simp [beq]
+  | .str a, b => by cases b <;> simp [beq]
+  | .arr a, b => by
+    cases b <;> simp [beq]
+    exact eq_of_beqL a _
+  | .obj a, b => by
+    cases b <;> simp [beq]
+    exact eq_of_beqO a _
+theorem eq_of_beqL : ∀ a b : List J, beqL a b = true → a = b
+  | [], b => by cases b <;> simp [beqL]
+  | x :: xs, b => by
+    cases b with
+    | nil => simp [beqL]
+    | cons y ys =>
+      simp only [beqL, Bool.and_eq_true, List.cons.injEq]
+      intro h
+      exact ⟨eq_of_beq x y h.1, eq_of_beqL xs ys h.2⟩
+theorem eq_of_beqO : ∀ a b : List (String × J), beqO a b = true → a = b
+  | [], b => by cases b <;> simp [beqO]
+  | (k, x) :: xs, b => by
+    cases b with
+    | nil => simp [beqO]
+    | cons y ys =>
+      obtain ⟨k', y⟩ := y
+      simp only [beqO, Bool.and_eq_true, beq_iff_eq, List.cons.injEq, Prod.mk.injEq]
+      intro h
+      exact ⟨⟨h.1.1, eq_of_beq x y h.1.2⟩, eq_of_beqO xs ys h.2⟩
+end
+
+mutual
+theorem beq_refl : ∀ a : J, beq a a = true
+  | .null => by simp [beq]
+  | .bool a => by simp [beq]
+  | .int a => by simp [beq]
+  | .flt a => by simp [beq]
+  | .str a => by simp [beq]
+  | .arr a => by simp [beq, beqL_refl a]
+  | .obj a => by simp [beq, beqO_refl a]
+theorem beqL_refl : ∀ a : List J, beqL a a = true
+  | [] => by simp [beqL]
+  | x :: xs => by simp [beqL, beq_refl x, beqL_refl xs]
+theorem beqO_refl : ∀ a : List (String × J), beqO a a = true
+  | [] => by simp [beqO]
+  | (k, x) :: xs => by simp [beqO, beq_refl x, beqO_refl xs]
+end
+
+instance : DecidableEq J := fun a b =>
+  if h : beq a b = true then isTrue (eq_of_beq a b h)
+  else isFalse (fun e => h (e ▸ beq_refl a))
+
+/-- Python truthiness -/
+def truthy : J → Bool
+  | .null => false
+  | .bool b => b
+  | .int i => i != 0
+  | .flt b => b % 2 ^ 63 != 0
+  | .str s => s != ""
+  | .arr l => !l.isEmpty
+  | .obj l => !l.isEmpty
+
+def isObj : J → Bool | .obj _ => true | _ => false
+def isArr : J → Bool | .arr _ => true | _ => false
+def isStr : J → Bool | .str _ => true | _ => false
+
+end J
+
+/-- association-list view of a Python dict -/
+abbrev Dict := List (String × J)
+
+namespace Dict
+
+/-- `k in d` -/
+def has (d : Dict) (k : String) : Bool := d.any (fun kv => kv.1 == k)
+
+/-- `d.get(k)` -/
+def get? : Dict → String → Option J
+  | [], _ => none
+  | (k', v) :: t, k => if k' == k then some v else get? t k
+
+/-- `del d[k]` / the remaining dict of `d.pop(k, None)` -/
+def erase : Dict → String → Dict
+  | [], _ => []
+  | (k', v) :: t, k => if k' == k then erase t k else (k', v) :: erase t k
+
+/-- `d[k] = v`: in place when the key exists, appended otherwise -/
+def set : Dict → String → J → Dict
+  | [], k, v => [(k, v)]
+  | (k', v') :: t, k, v => if k' == k then (k', v) :: t else (k', v') :: set t k v
+
+/-- `for k in d: d[k] = f(k, d[k])` -/
+def mapVals (f : String → J → J) (d : Dict) : Dict := d.map (fun kv => (kv.1, f kv.1 kv.2))
+
+def keys (d : Dict) : List String := d.map (·.1)
+
+end Dict
+
+/-- the error kinds the converters can raise before validation -/
+abbrev PyR := Except String
+
+def keyError (k : String) : PyR α := .error s!"KeyError:{k}"
+def valueError (m : String) : PyR α := .error s!"ValueError:{m}"
+def typeError (m : String) : PyR α := .error s!"TypeError:{m}"
+def attributeError (m : String) : PyR α := .error s!"AttributeError:{m}"
+
+/-- `d[k]` -/
+def Dict.get (d : Dict) (k : String) : PyR J :=
+  match d.get? k with
+  | some v => pure v
+  | none => keyError k
 
 end Gnpy
